@@ -31,6 +31,9 @@ type tcase struct {
 	Senders int     `json:"senders"`
 	Steps   []tstep `json:"steps"`
 	Seed    int64   `json:"seed"`
+	// Sibling: a second filter is built from the very same option values and carries a trickle of its own traffic to its
+	// own sink while the monitored filter runs. Filters are independent objects: neither may see the other's datagrams.
+	Sibling bool `json:"sibling,omitempty"`
 }
 
 type tfwd struct {
@@ -166,8 +169,17 @@ func genTBFCase(rng *rand.Rand, multi bool) tcase {
 func waitParkedTBF(deadline time.Duration) bool {
 	t0 := time.Now()
 	for {
-		ps := gstate.ParkedIn(gstate.Snapshot(), "vnet.(*TokenBucketFilter).run")
-		if len(ps) == 1 && ps[0].State == "select" {
+		// every filter goroutine of the process (one, or two when a sibling filter runs) sits in its select
+		total, idle := 0, 0
+		for _, g := range gstate.Snapshot() {
+			if g.Has("vnet.(*TokenBucketFilter).run") {
+				total++
+				if g.State == "select" {
+					idle++
+				}
+			}
+		}
+		if total >= 1 && idle == total {
 			return true
 		}
 		if time.Since(t0) > deadline {
@@ -176,7 +188,7 @@ func waitParkedTBF(deadline time.Duration) bool {
 	}
 }
 
-func runTBFCase(c tcase, r *res.Result) (string, string) {
+func runTBFCase(c tcase, r *res.Result) (key string, desc string) {
 	var mu sync.Mutex
 	var got []tfwd
 	sink := &vnet.VerifNIC{OnChunk: func(ch vnet.Chunk) {
@@ -185,9 +197,83 @@ func runTBFCase(c tcase, r *res.Result) (string, string) {
 		got = append(got, tfwd{ch, now, vn.Hash(ch.UserData()), len(ch.UserData())})
 		mu.Unlock()
 	}}
-	f, err := vnet.NewTokenBucketFilter(sink, vnet.TBFRate(c.Rate), vnet.TBFMaxBurst(c.Burst), vnet.TBFQueueSizeInBytes(c.Queue))
+	opts := []vnet.TBFOption{vnet.TBFRate(c.Rate), vnet.TBFMaxBurst(c.Burst), vnet.TBFQueueSizeInBytes(c.Queue)}
+	f, err := vnet.NewTokenBucketFilter(sink, opts...)
 	if err != nil {
 		return "tbf:ctor", err.Error()
+	}
+	if c.Sibling {
+		var smu2 sync.Mutex
+		var sgot []vnet.Chunk
+		ssink := &vnet.VerifNIC{OnChunk: func(ch vnet.Chunk) {
+			smu2.Lock()
+			sgot = append(sgot, ch)
+			smu2.Unlock()
+		}}
+		sib, err := vnet.NewTokenBucketFilter(ssink, opts...)
+		if err != nil {
+			return "tbf:ctor", err.Error()
+		}
+		const nsib = 24
+		var ssent []vnet.Chunk
+		sdone := make(chan struct{})
+		go func() {
+			defer close(sdone)
+			for i := 0; i < nsib; i++ {
+				ch := vnet.VerifNewChunkUDP(vn.UDP("10.0.7.1", 7000), vn.UDP("10.0.7.2", 7001), vn.Payload(uint64(7)<<40|uint64(i+1), 9+i%3))
+				smu2.Lock()
+				ssent = append(ssent, ch)
+				smu2.Unlock()
+				vnet.VerifInject(sib, ch)
+				time.Sleep(time.Duration(200+i*37%400) * time.Microsecond)
+			}
+		}()
+		defer func() {
+			<-sdone
+			// let the sibling forward what it holds (24 datagrams of about 10 bytes: far below any burst or queue size)
+			sib.Set(vnet.TBFMaxBurst(1<<30), vnet.TBFRate(1<<40))
+			vnet.VerifInject(sib, vnet.VerifNewChunkUDP(vn.UDP("10.0.7.1", 7000), vn.UDP("10.0.7.2", 7001), nil))
+			dl := time.Now().Add(3 * time.Second)
+			for time.Now().Before(dl) {
+				smu2.Lock()
+				n := len(sgot)
+				smu2.Unlock()
+				if n >= nsib+1 {
+					break
+				}
+				time.Sleep(200 * time.Microsecond)
+			}
+			sib.Close()
+			r.Count("sibling_filter_runs", 1)
+			if key != "" || desc != "" {
+				return
+			}
+			smu2.Lock()
+			defer smu2.Unlock()
+			j := 0
+			for _, g := range sgot {
+				if len(g.UserData()) == 0 {
+					continue
+				}
+				for j < len(ssent) && ssent[j] != g {
+					j++
+				}
+				if j == len(ssent) {
+					key, desc = "tbf:sibling:foreign-or-reordered", "a second filter built from the same option values forwarded a datagram that was not handed to it, or out of order"
+					return
+				}
+				j++
+			}
+			nfw := 0
+			for _, g := range sgot {
+				if len(g.UserData()) > 0 {
+					nfw++
+				}
+			}
+			if nfw != nsib {
+				key, desc = "tbf:sibling:lost", fmt.Sprintf("a second filter built from the same option values forwarded %d of its %d small datagrams although its queue was never near its limit", nfw, nsib)
+			}
+		}()
 	}
 	closed := false
 	defer func() {
@@ -501,6 +587,7 @@ func runTBF(tier string, seed int64, shard, nshard int, r *res.Result, replay *t
 	seen := map[string]int{}
 	for i := 0; i < n; i++ {
 		c := genTBFCase(rng, i%5 == 4)
+		c.Sibling = i%3 == 1
 		r.Eval(1)
 		key, desc := runTBFCase(c, r)
 		if key == "" && desc != "" {
